@@ -10,6 +10,7 @@ import (
 	"github.com/ipld/go-ipld-prime/datamodel"
 	"github.com/ipld/go-ipld-prime/linking"
 	"github.com/ipld/go-ipld-prime/node/basicnode"
+	cidlink "github.com/ipld/go-ipld-prime/linking/cid"
 	"github.com/ipld/go-ipld-prime/storage/memstore"
 	mh "github.com/multiformats/go-multihash"
 
@@ -67,6 +68,13 @@ func newSys(storage string) sys {
 		ls.SetReadStorage(ms)
 		ls.SetWriteStorage(ms)
 		return sys{ls, func() int { return len(ms.Bag) }}
+	case "cidmemory":
+		// the library's own in-memory block store for CID links
+		ls := lsx.NewLinkSystem(lsx.NewStore())
+		cm := &cidlink.Memory{}
+		ls.StorageReadOpener = cm.OpenRead
+		ls.StorageWriteOpener = cm.OpenWrite
+		return sys{ls, func() int { return len(cm.Bag) }}
 	}
 	st := lsx.NewStore()
 	return sys{lsx.NewLinkSystem(st), func() int { return len(st.M) }}
@@ -256,7 +264,7 @@ func histories(r *core.Run) {
 		nv, np, depth = 3, 3, 4
 	}
 	ops := alphabet(nv, np)
-	for _, storage := range []string{"harness", "memstore"} {
+	for _, storage := range []string{"harness", "memstore", "cidmemory"} {
 		// (1) explicit-state search to fixpoint; state = (stored set, last op); path = shortest history
 		type st struct{ path []Op }
 		seen := map[string]bool{"|init": true}
